@@ -241,21 +241,33 @@ def generate():
     return "\n".join(o) + "\n"
 
 
-def main():
-    out = os.path.join(os.path.dirname(os.path.dirname(os.path.abspath(__file__))), "coq", "Gen.v")
-    try:
-        text = generate()
-    except TranslateError as e:
-        print("TRANSLATE-ERROR: %s" % e)
-        return 3
+def write_if_changed(name, text):
+    out = os.path.join(os.path.dirname(os.path.dirname(os.path.abspath(__file__))), "coq", name)
     old = open(out).read() if os.path.exists(out) else None
     if old != text:
         with open(out, "w") as f:
             f.write(text)
-        print("Gen.v regenerated (changed)")
+        print("%s regenerated (changed)" % name)
     else:
-        print("Gen.v up to date")
-    return 0
+        print("%s up to date" % name)
+
+
+def main():
+    rc = 0
+    try:
+        write_if_changed("Gen.v", generate())
+    except TranslateError as e:
+        print("TRANSLATE-ERROR: %s" % e)
+        rc = 3
+    try:
+        import gen_kernels
+        base = eval_consts(read("params.rs"), {})
+        sets = {s: eval_consts(read("params/%s.rs" % s), base) for s in ("lvl2", "lvl3", "lvl5")}
+        write_if_changed("GenK.v", gen_kernels.generate_kernels(base, sets))
+    except TranslateError as e:
+        print("TRANSLATE-ERROR: %s" % e)
+        rc = 3
+    return rc
 
 
 if __name__ == "__main__":
